@@ -13,6 +13,7 @@ import re
 
 from ..mir import deep_strip, tstr, strip_generics, canon, subterms, is_call, implies_ge, implies_lt
 from ..tables import c07_edges as T
+from .. import effects
 
 CONFIGS = ("FULL", "XEN")
 THOROUGH_CONFIGS = ("MIN",)
@@ -92,8 +93,19 @@ def sig(t):
     return k
 
 
-def edges_of(prog, b):
-    """yield dict(kind, sig, pos, ln, terms, exp)"""
+def edges_of(prog, b, eff=None):
+    """yield dict(kind, sig, pos, ln, terms, exp). For a closure the operand terms are rewritten into the term space of the
+    function that defines it (captures -> captured values, the closure's argument -> what map/and_then/map_err feeds it), so
+    that `x.map(|v| f(v))` and `match x { Some(v) => f(v), .. }` give the same signature."""
+    for e in _edges_of(prog, b):
+        if b.kind == "Closure" and eff is not None and e.get("ops") and "resig" in e:
+            lifted = [eff.in_parent(b, o, tag_own=True) for o in e["ops"]]
+            ops = [x[1] for x in lifted]
+            e = dict(e, ops=ops, ops_local=e["ops"], sig=e["resig"](ops), lifted=True, lift_body=lifted[0][0])
+        yield e
+
+
+def _edges_of(prog, b):
     for pos, t in b.terms():
         ln = t.get("ln")
         mac = t.get("mac", "") if t.get("exp") else ""
@@ -126,7 +138,8 @@ def edges_of(prog, b):
                     sa = [sig(a) for a in args]
                     if cn.split("::")[-1] in COMMUTATIVE_FNS:
                         sa = sorted(sa)
-                    yield {"kind": "silent_wrap", "sig": f"{'::'.join(cn.split('::')[-2:])}({','.join(sa)})", "pos": pos, "ln": ln, "ops": args, "mac": mac, "callee": cn}
+                    yield {"kind": "silent_wrap", "sig": f"{'::'.join(cn.split('::')[-2:])}({','.join(sa)})", "pos": pos, "ln": ln, "ops": args, "mac": mac, "callee": cn,
+                           "resig": (lambda o, cn=cn: f"{'::'.join(cn.split('::')[-2:])}({','.join(sorted(sig(a) for a in o) if cn.split('::')[-1] in COMMUTATIVE_FNS else [sig(a) for a in o])})")}
     # narrowing casts
     for pos, s in b.stmts():
         if s["k"] == "assign" and s["rv"]["k"] == "cast" and s["rv"]["cast"] == "IntToInt":
@@ -156,6 +169,8 @@ def _mutable_self(b, param):
 
 def auto_discharge(b, e):
     """local lemmas; returns reason string or None"""
+    if "ops_local" in e:
+        e = dict(e, ops=e["ops_local"])     # the dominating facts of a closure body are in its own term space
     k = e["kind"]
     if k.startswith("Overflow:Sh"):
         # cond: rhs < BITS
@@ -205,9 +220,24 @@ def auto_discharge(b, e):
 def phi_alternatives(b, e):
     if "resig" not in e or "var" not in e["sig"] or not e["ops"]:
         return None
-    from ..outcomes import alternatives
-    alts = alternatives(b, e["pos"], ('agg', 'ops', None, tuple(e["ops"])))
-    if len(alts) <= 1:
+    from ..outcomes import feasible_alternatives
+    if e.get("lift_body") is not None and e["lift_body"] is not b:
+        # operands of a closure edge, written in the defining function's terms: the phi lives there
+        pb = e["lift_body"]
+        env = effects.Effects(pb.prog).closure_env(b)
+        if env is None:
+            return None
+        alts = feasible_alternatives(pb, env[2], ('agg', 'ops', None, tuple(e["ops"])))
+        if len(alts) < 1 or (len(alts) == 1 and e["resig"](list(alts[0][1][3])) == e["sig"]):
+            return None
+        out = []
+        for p2, t2 in alts:
+            ops = list(t2[3])
+            e2 = {k: v for k, v in e.items() if k not in ("ops_local", "lift_body")}
+            out.append(dict(e2, ops=ops, pos=p2, sig=e["resig"](ops), body=pb))
+        return out
+    alts = feasible_alternatives(b, e["pos"], ('agg', 'ops', None, tuple(e["ops"])))
+    if len(alts) < 1 or (len(alts) == 1 and e["resig"](list(alts[0][1][3])) == e["sig"]):
         return None
     out = []
     for p2, t2 in alts:
@@ -352,6 +382,7 @@ def run(ctx, progs):
     table_hits = {}
     for cfg, prog in progs.items():
         ctx.config = cfg
+        eff = effects.Effects(prog)
         n_bodies = n_edges = n_auto = n_tab = 0
         n_loops = 0
         for b in prog.bodies:
@@ -360,8 +391,9 @@ def run(ctx, progs):
             if re.search(T.SKIP_BODIES, b.key):
                 continue
             n_bodies += 1
-            fnkey = b.key
-            for e in edges_of(prog, b):
+            # a closure's edges are reviewed as edges of the function that defines it
+            fnkey = strip_generics(b.root) if (b.kind == "Closure" and b.root) else b.key
+            for e in edges_of(prog, b, eff):
                 n_edges += 1
                 inst = f"{fnkey}|{e['kind']}|{e['sig']}"
                 where = b.where(e["ln"])
@@ -392,11 +424,12 @@ def run(ctx, progs):
                 if alts:
                     res = []
                     for e2 in alts:
-                        w2 = auto_discharge(b, e2)
+                        b2 = e2.get("body", b)
+                        w2 = auto_discharge(b2, e2)
                         if w2:
                             res.append(("auto", w2, e2))
                             continue
-                        r2 = table_lookup(b, fnkey, e2)
+                        r2 = table_lookup(b2, fnkey, e2)
                         if r2:
                             table_hits[r2] = table_hits.get(r2, 0) + 1
                             res.append(("tabled", f"[{r2[3]}] {r2[4]}", e2))
